@@ -298,6 +298,8 @@ class ImplRun(object):
         self.problems = []       # driver-level anomalies (float delay mismatch, contract breach ...)
         self.produce_log = []    # (step index, attempt, [(t, p, [mids])])
         self.delays = []
+        self.raw = []            # per event: the outputs in the order the implementation produced them
+        self.snaps = []          # per event: observable state AFTER the event (see snapshot())
         api = {0: None, 1: 0, 2: "table"}[cfg["api"]]
         if api == "table":
             from afkak.common import ApiVersion
@@ -346,6 +348,7 @@ class ImplRun(object):
         self.producer = Producer(self.client, **kw)
         self.cur = None
         self.Producer = Producer
+        self.snap0 = self.snapshot()
 
     # -- model-side configuration of this run
     def model_cfg(self):
@@ -531,9 +534,24 @@ class ImplRun(object):
         self.cur = []
         mev = self._apply(ev)
         self.events.append(mev)
+        self.raw.append(list(self.cur))
         self.trace.append(sorted(self.cur))
         self.cur = None
+        self.snaps.append(self.snapshot())
         return mev
+
+    def snapshot(self):
+        """what an outside observer can tell after an event: is the producer waiting on anything it asked its
+        client / reactor for (request, version lookup, metadata loads, retry timers), which callers are still
+        waiting, is the periodic timer armed"""
+        c = self.client
+        loads = [lid for lid, d in sorted(getattr(c, "loads", {}).items()) if not d.called]
+        timers = [tid for tid, dc in sorted(self.clock.timers.items()) if dc in self.clock.calls]
+        req = getattr(c, "request", None) is not None and not c.request[0].called
+        ver = getattr(c, "version_d", None) is not None and not c.version_d.called
+        return {"busy": bool(loads or timers or req or ver), "loads": loads, "timers": timers, "req": bool(req), "ver": bool(ver),
+                "unresolved": [sid for sid, d in sorted(self.send_d.items()) if not d.called],
+                "looper": any(dc in self.clock.calls for dc in self.clock.looper_calls)}
 
     def _apply(self, ev):
         from twisted.python.failure import Failure
